@@ -153,7 +153,7 @@ Definition model1 (o : dop) : list bytes :=
          | ShapeUnknown => [[9]; []]
          end
   else if code =? 4 then decode tag (impl_bytes tag (skipn 1 args))
-  else if code =? 2 then decode tag (a 1 args)
+  else if (code =? 2) || (code =? 5) then decode tag (a 1 args)
   else [].
 Definition model (ops : list dop) : list (list bytes) := map model1 ops.
 
@@ -166,6 +166,10 @@ Definition oracle1 (o : dop) (obs : list bytes) : bool :=
   else if code =? 4 then
     (* decoding the emitted bytes yields the original object *)
     list_eqb bytes_match ([0] :: orig_comps tag (skipn 1 args)) obs
+  else if code =? 5 then
+    (* a record the server built itself (a file-list entry): it is a well-formed record - the reference decoder
+       consumes it exactly, i.e. the name-size prefix covers exactly the name bytes that follow *)
+    if tag =? 4 then match spec_dec_fnwi (a 1 args) with Some (_, []) => true | _ => false end else true
   else true.
 Definition oracle (ops : list dop) (obs : list (list bytes)) : bool :=
   forallb (fun p => oracle1 (fst p) (snd p)) (combine ops obs).
